@@ -11,7 +11,8 @@ appears as a completed item."
 
 Part A: `getRunlog` (= `RuntimeInfo.get_runlog`) on ALL record lists:
 * `runlog_producible`         — no raise on every record list that satisfies `WF`
-                                 (per shown invocation: time/tick ordered, nothing after a conclusive state);
+                                 (per shown invocation: time/tick ordered, nothing after a conclusive state;
+                                 `WF_spelled_out`), and `runlog_producible_iff`: it raises on every other list;
 * `runlog_sorted`, `runlog_ids_distinct`, `runlog_items_wellformed`, `completed_state_has_completed_item`
                                — whenever it returns (no further hypothesis, except: instance ids are not shared
                                  between records for the distinctness of ids).
@@ -55,6 +56,23 @@ theorem runlog_producible (rs : List Rec) (h : WF rs) : ∃ items, getRunlog rs 
     exact h r hm.1 (by simp only [Rec.visible, hm.2, hrend, Bool.and_self]) i
   obtain ⟨raw, hraw⟩ := this
   exact ⟨_, by rw [hraw]⟩
+
+/-- The well-formedness predicate, spelled out: in every record that the run log shows, the states of every
+instance id are in tick and time order, and a conclusive state (Completed, Failed, Cancelled) is the last one. -/
+theorem WF_spelled_out (rs : List Rec) :
+    WF rs ↔ ∀ r ∈ rs, r.visible = true → ∀ i,
+      (group r.states i).Pairwise (fun a b => a.tick ≤ b.tick ∧ a.time ≤ b.time) ∧
+      (group r.states i).Pairwise (fun a _ => a.name.conclusive = false) := Iff.rfl
+
+/-- `WF` is exactly the condition under which `get_runlog` returns: it raises on every other record list. -/
+theorem runlog_producible_iff (rs : List Rec) : (∃ items, getRunlog rs = .ok items) ↔ WF rs := by
+  refine ⟨?_, runlog_producible rs⟩
+  rintro ⟨items, h⟩ r hr hv i
+  obtain ⟨raw, hraw, _⟩ := getRunlog_ok h
+  simp only [Rec.visible, Bool.and_eq_true] at hv
+  have hrf : r ∈ rs.filter (fun r => r.cls != "NullNode") := List.mem_filter.mpr ⟨hr, hv.1⟩
+  obtain ⟨o, ho, _⟩ := collect_ok_all hraw r hrf
+  exact recordItems_ok_wf ho hv.2 i
 
 /-- **Ordered by start time.** -/
 theorem runlog_sorted (rs : List Rec) (items : List Item) (h : getRunlog rs = .ok items) :
@@ -147,6 +165,18 @@ example : (collect recordItems (demoRecs.filter (fun r => r.cls != "NullNode")))
 
 example : InstDisjoint demoRecs := by
   simp [InstDisjoint, demoRecs, Rec.insts]
+
+example : WF demoRecs := by
+  apply wf_of_records
+  simp [demoRecs, Ordered, NoStateAfterConcl, StName.conclusive]
+
+/-- …and a record list that is not well-formed (Forced after Completed): `get_runlog` raises. -/
+example : ¬ WF [{ nodeId := 1, cls := "MarkNode", name := some "Mark: a",
+                   states := [⟨1, .started, 9, 2, "Mark: a", {}, .none⟩, ⟨1, .completed, 9, 2, "Mark: a", {}, .none⟩,
+                              ⟨1, .forced, 10, 3, "Mark: a", {}, .none⟩] }] := by
+  intro h
+  have := (h _ (List.mem_singleton.mpr rfl) (by decide +kernel) 1).2
+  simp [group, ConclLast, StName.conclusive] at this
 
 /-! ## Part B: the tracking API keeps the record list well-formed -/
 
